@@ -94,7 +94,7 @@ def gen_histories(chk):
         jobs = []
         for level, depth in plan:
             if quick and depth == 4:      # depth 4 from the first initial sequence, depth 3 from the others
-                jobs.append((level, 4, inits_all[:1]))
+                jobs.append((-1, 4, inits_all[:1]))     # level -1: reduced alphabet on the first and the last two objects
                 jobs.append((level, 3, inits_all[1:]))
             else:
                 jobs.append((level, depth, inits_all + (([[], []],) if level else ())))
@@ -104,15 +104,25 @@ def gen_histories(chk):
                 g.counter = 10
                 init = f'new:{tiny}:{g.bpr()}:1:{L.enc_elems(init_els)}'
                 for toks in L.exhaustive(g, init, depth, level):
-                    add(g, toks, f'exh:cfg{ci}:L{level}:d{depth}')
+                    add(g, toks, f'exh:cfg{ci}:L{max(level, 0)}:d{depth}')
     for ci, (shape, kind, sizes, tiny) in enumerate(CONFIGS):
         g = L.Gen(shape, kind, sizes, tiny)
         for toks in L.seqop_core(g, tiny):
             add(g, toks, f'exh:cfg{ci}:seqop')
+    # refused appends (wrong trailing shape, cached or not), shrink_data(), tuple indices, concatenate(axis=1)
+    for ci, (shape, kind, sizes, tiny) in enumerate(CONFIGS):
+        g = L.Gen(shape, kind, sizes, tiny)
+        for toks in L.ext_core(g, tiny):
+            add(g, toks, f'exh:cfg{ci}:ext')
     n_core = len(hists)
+    for _ in range(chk.n(300, 8000)):
+        shape, kind, sizes, tiny = chk.rng.choice(CONFIGS)
+        g = L.Gen(shape, kind, sizes, tiny)
+        bc = sorted({tiny, g.bpr() * 2, L.DEFAULT_BYTES, 1})
+        add(g, L.random_history(g, chk.rng, chk.rng.choice([6, 10, 15]), bc, ext=True), 'rand:ext')
     # ---- random tail (seeded)
     rng = chk.rng
-    for _ in range(chk.n(2500, 40000)):
+    for _ in range(chk.n(1500, 40000)):
         shape, kind, sizes, tiny = rng.choice(CONFIGS)
         g = L.Gen(shape, kind, sizes, tiny)
         depth = rng.choice([6, 10, 15, 25])
@@ -125,7 +135,7 @@ def gen_tract(chk):
     """Tractogram layer (harness level only): (tag, toks)"""
     out = [('tract:core', t) for t in L.tract_core()]
     rng = chk.rng
-    for _ in range(chk.n(500, 8000)):
+    for _ in range(chk.n(300, 8000)):
         out.append(('tract:rand', L.tract_random(rng, rng.choice([5, 10, 20]))))
     return out
 
@@ -137,8 +147,30 @@ KNOWN_TEXT = {
 }
 
 
+def _check_chunk(items):
+    return [L.check_history(*it) for it in items]
+
+
+def check_all(impl, ids, jobs=8):
+    """the direct predicate on every history, in worker processes"""
+    from concurrent.futures import ProcessPoolExecutor
+    ids = [h for h in ids if h in impl]
+    n = max(1, (len(ids) + jobs * 4 - 1) // (jobs * 4))
+    chunks = [ids[i:i + n] for i in range(0, len(ids), n)]
+    out = {}
+    try:
+        with ProcessPoolExecutor(jobs) as ex:
+            for ch, res in zip(chunks, ex.map(_check_chunk, [[impl[h] for h in ch] for ch in chunks])):
+                out.update(zip(ch, res))
+    except Exception:
+        for h in ids:
+            out[h] = L.check_history(*impl[h])
+    return out
+
+
 def compare(chk, hists, impl, crashed, model):
     nviol = 0
+    checked = check_all(impl, [h for h, _, _, _ in hists])
     for hid, header, toks, tag in hists:
         case = {'header': header, 'ops': toks}
         if hid in crashed:
@@ -155,7 +187,7 @@ def compare(chk, hists, impl, crashed, model):
         for s in steps:
             if s.startswith('err:'):
                 chk.refusal(s.split('#')[0][4:])
-        fails, known = L.check_history(echo, steps, lays)
+        fails, known = checked[hid]
         for fid in known:
             chk.known(fid, KNOWN_TEXT[fid])
             chk.tagc('known:' + fid, known[fid])
@@ -251,6 +283,14 @@ def coq_of_tokens(echo):
             out.append('OConcat [' + ';'.join(f'({p[0]}%nat, {z(p[1])})' for p in ps) + ']')
         elif o == 'drop':
             out.append(f'ODrop {f[1]}')
+        elif o == 'appbad':
+            out.append(f'OAppendBad {f[1]}')
+        elif o == 'shrink':
+            out.append(f'OShrink {f[1]}')
+        elif o == 'cat1':
+            out.append('OConcat1 [' + ';'.join(f'{j}%nat' for j in f[1].split(',') if j) + ']')
+        elif o == 'gett':
+            out.append(f'OGetCols {f[1]} {ix(f[2])}')
         elif o == 'opq':
             g2 = {'add': 'BAdd', 'sub': 'BSub', 'mul': 'BMul', 'lt': 'BLt', 'eq': 'BEq', 'or': 'BOr', 'and': 'BAnd',
                   'xor': 'BXor'}[f[2]]
@@ -328,39 +368,6 @@ def run(chk: Check):
     model = common.run_model_parallel(PROP, lines)
     compare(chk, hists, impl, crashed, model)
     chk.exhaustive = False
-    # ---- operations outside the Coq model (direct predicate only): append with a wrong trailing shape,
-    #      shrink_data(), tuple indices, concatenate(axis=1)
-    xh = []
-    for ci, (shape, kind, sizes, tiny) in enumerate(CONFIGS):
-        g = L.Gen(shape, kind, sizes, tiny)
-        xh += [('ext:core', g.header(), t) for t in L.ext_core(g, tiny)]
-    for _ in range(chk.n(400, 8000)):
-        shape, kind, sizes, tiny = chk.rng.choice(CONFIGS)
-        g = L.Gen(shape, kind, sizes, tiny)
-        bc = sorted({tiny, g.bpr() * 2, L.DEFAULT_BYTES, 1})
-        xh.append(('ext:rand', g.header(), L.random_history(g, chk.rng, chk.rng.choice([6, 10, 15]), bc, ext=True)))
-    ximpl, xcrashed = run_children([(f'x{n}', hd, t) for n, (_, hd, t) in enumerate(xh)])
-    nv = 0
-    for n, (tag, hd, toks) in enumerate(xh):
-        hid = f'x{n}'
-        case = {'header': hd, 'ops': toks}
-        chk.count(key=(hd, tuple(toks)), tag=tag, sample=case if n == 3 else None)
-        if hid in xcrashed:
-            chk.violation('property_violation', case=case, predicate='child process died: ' + xcrashed[hid])
-            continue
-        echo, steps, lays = ximpl[hid]
-        case['ops'] = echo
-        for t in echo:
-            chk.tagc('op:' + t.split(':')[0])
-        fails, known = L.check_history(echo, steps, lays)
-        for fid in known:
-            chk.known(fid, KNOWN_TEXT[fid])
-            chk.tagc('known:' + fid, known[fid])
-        if fails and nv < 20:
-            nv += 1
-            cat, k, detail = fails[0]
-            chk.violation('property_violation', case=case, impl_output=steps[k] if k < len(steps) else None,
-                          predicate=f'{cat} fails at step {k}: {detail}', theorem='C15_' + cat)
     # ---- Tractogram layer: direct predicate only (no Coq model of Tractogram)
     thists = gen_tract(chk)
     timpl, tcrashed = run_children([(f't{n}', 'T', t) for n, (_, t) in enumerate(thists)])
@@ -383,7 +390,7 @@ def run(chk: Check):
             chk.violation('property_violation', case=case, impl_output=steps[k] if k < len(steps) else None,
                           predicate=f'tractogram layer: {cat} fails at step {k}: {detail}', theorem='C15_' + cat)
     # ---- cross-check extraction + driver against evaluation inside coqc
-    sample = [h for h, _, _, _ in hists if h in impl][::max(1, len(hists) // 40)][:40]
+    sample = [h for h, _, _, _ in hists if h in impl][::max(1, len(hists) // 25)][:25]
     raw = run_model(PROP, [f'{h} rawhist ' + ' '.join(impl[h][0]) for h in sample])
     pairs = []
     for h in sample:
@@ -406,22 +413,27 @@ def run(chk: Check):
 
 
 UNPROVED = [
-    'a single simulation theorem for ALL operations against one abstract machine is still not stated.  Proved instead, '
-    'for every reachable state: C15_simulation (absC (step st o) = spec_step (absC st) o; abstract state = per object '
-    '(alive, list of arrays)) for construction, un-cached append, extend, indexing, view constructor, copy, out-of-place '
-    'operators and drop; the evolution of the sharing relation R ("element q of x is the same array as element q\' of y") '
-    'for growth (C15_links_growth: links between other objects unchanged, links of the grown object may be cut, never '
-    'created = S-C15d), indexing / copy (C15_links_view, C15_links_copy) and writes (C15_links_write); assignments and '
-    'in-place operators as functions of (contents, R) (C15_own_contents_setitem_*, _inplace, _opseq_inplace).  Missing for '
-    'the single theorem: cached builds (pending elements are not in the abstract state; covered by '
-    'C15_own_contents_append/_finalize through the visible+pending list), concatenate (C15_own_contents_concatenate), and '
-    'the packaging of the pieces above into one relation spec_rel (absS st) o (absS st\') with absS = (absC, R)',
+    'C15_simulation_all (one relation spec_rel (absS st) o (absS st\') over ALL operations, pending lists in the abstract '
+    'state) is NOT stated.  Proved instead, for every reachable state: C15_simulation (absC (step st o) = spec_step (absC st) '
+    'o; abstract state = per object (alive, list of arrays)) for construction, un-cached append, extend, indexing, view '
+    'constructor, copy, out-of-place operators and drop; the evolution of the sharing relation R for growth '
+    '(C15_links_growth: links between other objects unchanged, links of the grown object may be cut, never created = '
+    'S-C15d), indexing / copy / writes (C15_links_view/_copy/_write); assignments and in-place operators as functions of '
+    '(contents, R) (C15_own_contents_setitem_*, _inplace, _opseq_inplace); cached builds through the visible+pending list '
+    '(C15_own_contents_append/_finalize); concatenate, concatenate(axis=1), refused append, shrink_data, seq[idx, cols] by '
+    'their own theorems.  Missing: "the pending elements of every OTHER object are unchanged" (needed to put pending lists '
+    'into the abstract state), "the new object of an out-of-place operator / constructor / concatenate is linked to '
+    'nothing" (proved for copy only), and the packaging',
     'C15_view_write_through at full strength is false of the faithful model (C15_view_write_through_refuted, S-C15d); '
     'proved: _partial (exactly the same-cell elements change, i.e. while the two objects share the buffer)',
-    'operations checked by the direct predicate only (no Coq model, no theorem): tuple indices seq[idx, cols], '
-    'concatenate(axis != 0), the ValueError of append on a trailing-shape mismatch (un-cached and cached), shrink_data() as '
-    'an operation of histories (C15_shrink_harmless covers a direct call outside a cached build); Tractogram.__getitem__, '
-    'copy (deepcopy), __add__, apply_affine (C15_tractogram_extend_* cover extend / += only); save/load not covered at all',
+    'domain restrictions of the model (reported as EBadSeq, never generated): append of an element with another trailing '
+    'shape to a sequence WITHOUT elements (it may define the shape), shrink_data() inside a cached build (API misuse), '
+    'concatenate(axis=1) of sequences without rows (AxisError on the 1-D initial buffer); seq[idx, cols] is modelled as the '
+    'view seq[idx] (one Z per row) and such objects are only read by the harness',
+    'Tractogram: extend / += (C15_tractogram_extend_*), __getitem__ (C15_tractogram_getitem) and apply_affine on a sliced '
+    'tractogram (C15_tractogram_apply_affine_sliced) are proved on the model; copy (deepcopy), __add__ and the non-sliced '
+    'branch of apply_affine (whole buffer in place, or a NEW array that silently detaches every view when np.dot(out=) '
+    'refuses, e.g. float32 points) are covered by the harness predicate only; save/load not covered at all',
 ]
 
 
